@@ -24,6 +24,8 @@ def ITE(c, a, b):
 
 def dy(x):
     """exact dyadic view (num, exp) of an int / float / Fraction / term / 1-cell array"""
+    if _isinstance(x, tuple) and len(x) == 2:
+        return x                                  # already a dyadic (num, exp)
     if hasattr(x, '_sx_scalar_value'):
         x = x._sx_scalar_value()
     if _isinstance(x, SFloat):
